@@ -85,6 +85,16 @@ class MkSym(MkBase):
         spec-side arithmetic on constants is exact"""
         return t if isinstance(t, ST) else ST(t)
 
+    def unit(self, name, shape=()):
+        """every element in (0,1), parametrised as u/(1+u) with u>0 (surjective onto (0,1)):
+        sign claims about polynomials in such inputs become syntactic"""
+        u = self.real(name + "~u", shape, lo=0)
+        return u / (1.0 + u)
+
+    def above(self, name, shape, base):
+        """every element > base, parametrised as base + s with s>0"""
+        return self.real(name + "~s", shape, lo=0) + base
+
 
 class MkNum(MkBase):
     """concrete mode: values from env (name[i,j] -> float)"""
@@ -117,6 +127,13 @@ class MkNum(MkBase):
 
     def lift(self, t):
         return t
+
+    def unit(self, name, shape=()):
+        u = self.real(name + "~u", shape, lo=0)
+        return u / (1.0 + u)
+
+    def above(self, name, shape, base):
+        return self.real(name + "~s", shape, lo=0) + base
 
 
 # --------------------------------------------------------------------------------------
